@@ -12,7 +12,6 @@ import (
 	"github.com/attestantio/go-eth2-client/spec/phase0"
 	"github.com/attestantio/vouch/internal/vnd"
 	"github.com/attestantio/vouch/internal/vstub"
-	"github.com/rs/zerolog"
 )
 
 type c07Provider struct {
@@ -52,7 +51,7 @@ func (c *c07Cache) BlockRootToSlot(_ context.Context, root phase0.Root) (phase0.
 // concurrency is mandatory for New but not read by BeaconBlockRoot; it is set
 // to the number of nodes.
 func c07New(timeout time.Duration, providers map[string]eth2client.BeaconBlockRootProvider) *Service {
-	s, err := New(context.Background(), WithLogLevel(zerolog.Disabled), WithClientMonitor(vstub.ClientMonitor{}),
+	s, err := New(context.Background(), WithLogLevel(vnd.LogLevel()), WithClientMonitor(vstub.ClientMonitor{}),
 		WithTimeout(timeout), WithProcessConcurrency(int64(len(providers))),
 		WithBeaconBlockRootProviders(providers), WithBlockRootToSlotCache(&c07Cache{}))
 	vnd.Assert(err == nil && s != nil, "C07.new.accepted")
